@@ -64,6 +64,8 @@ def model_level(ctx):
     jobs = {}   # name -> (callable)
     jobs["mc"] = lambda: vlib.run_tlc(ctx, FAMILY, "MCRpcQueue", "MCRpcQueue.cfg", timeout=600, name="mc", workers=4)
     jobs["mc-bug"] = lambda: vlib.run_tlc(ctx, FAMILY, "MCRpcQueue", "MCRpcQueueBug.cfg", timeout=600, name="mc-bug", workers=2)
+    if ctx.thorough:
+        jobs["mc2"] = lambda: vlib.run_tlc(ctx, FAMILY, "MCRpcQueue", "MCRpcQueue2.cfg", timeout=1200, name="mc2", workers=6)
     base = sorted({(c, cc) for (_, c, cc, _, _, _) in MUST_FAIL})
     for (c, cc) in base:
         jobs["ok-%s-%s" % (c, cc)] = (lambda c=c, cc=cc: vlib.run_tlc(
@@ -171,7 +173,7 @@ def run(ctx):
     for (v, c, cc, kind, prop, _) in MUST_FAIL:
         vlib.require_mc_fails(ctx, res["mf-%s-%s" % (v, c)], "MCRpcQueue %s (Variant %s)" % (c, v), prop)
     if ctx.thorough:
-        mc2 = vlib.run_tlc(ctx, FAMILY, "MCRpcQueue", "MCRpcQueue2.cfg", timeout=900, name="mc2", workers=min(vlib.NCPU, 8))
+        mc2 = res["mc2"]
         vlib.require_mc_ok(ctx, mc2, "MCRpcQueue2 (cap 2, 3 pushers)", allow_timeout=True)
         states += mc2.distinct; transitions += mc2.generated
 
